@@ -86,7 +86,7 @@ def prov_growth_edge(repo, tier="quick"):
     ok_rc = False
     C = None
     if RC is not None:
-        c = is_call(RC, "random.choice")
+        c = is_call(RC, "random.choice", "choice")
         if c and len(c[0]) == 1 and c[0][0][0] == "sub" and c[0][0][1] == g.fragments:
             C = c[0][0][2]
             ok_rc = True
@@ -121,7 +121,7 @@ def prov_growth_edge(repo, tier="quick"):
     if not (okC and okB):
         return obs
     # S = random.choice(open_bonds[B])
-    cS = is_call(S, "random.choice")
+    cS = is_call(S, "random.choice", "choice")
     okS = bool(cS and len(cS[0]) == 1 and cS[0][0] == ("sub", g.open_bonds, B))
     (obs.append(ob_ok(oid, fi, acall, construct="site = choice(open_bonds[site_descr])", instance="site",
                       reason="the growth site is an atom that still offers the chosen descriptor")) if okS else
@@ -173,12 +173,12 @@ def prov_weights(repo, tier="quick"):
     fi = repo.function("sample:_select_bonding_operator")
     fl, cfg = fi.flow, fi.cfg
     P = fi.positional_params
-    need(len(P) == 2, "_select_bonding_operator no longer takes (bonds, probabilities)", fi)
+    need(len(P) == 2 or (len(P) == 3 and P[2] == "rng"), "_select_bonding_operator no longer takes (bonds, probabilities[, rng])", fi)
     bonds, probs = ("param", P[0]), ("param", P[1])
     obs = []
     oid = "PROV.weights"
-    weighted = fl.calls_to("random.choices")
-    plain = fl.calls_to("random.choice")
+    weighted = [(c_, n_, None) for c_, n_ in fl.calls() if is_call(fl.canon(c_, n_), "random.choices", "choices")]
+    plain = [(c_, n_, None) for c_, n_ in fl.calls() if is_call(fl.canon(c_, n_), "random.choice", "choice")]
     need(weighted, "anchor vanished: no random.choices in _select_bonding_operator", fi)
     for call, nid, _ in weighted:
         t = fl.canon(call, nid)
@@ -256,6 +256,12 @@ def tt_terminal_filter(repo, tier="quick"):
             idx = i
     need(idx is not None, "add_edge is not a top-level statement of add_fragment", fi, acall)
     tail = body[idx + 1:]
+    # statements that neither touch the 'bonding' attribute nor the terminal set (the hydrogen bookkeeping of the two bonded
+    # atoms) have no part in this question
+    def relevant(st):
+        return isinstance(st, ast.Return) or any((isinstance(x, ast.Constant) and x.value == "bonding") or
+                                                 (isinstance(x, ast.Attribute) and x.attr == "terminal_bonds") for x in ast.walk(st))
+    tail = [st for st in tail if relevant(st)]
     T = descriptor("$", 1, 1)      # a terminal descriptor
     N = descriptor("$", 2, 1)      # a non-terminal descriptor
     T2 = descriptor(">", 3, 1)     # another terminal
@@ -461,30 +467,58 @@ BAD_RANDOM_PREFIX = ("numpy.random", "secrets", "os.urandom", "uuid", "random.Sy
 
 
 def det_sampler(repo, tier="quick"):
+    """Every random draw of sample.py comes from the sampler's own generator (`self.random = random.Random(seed)`, handed to
+    module-level helpers as `rng=self.random`) on an ordered population; the generator is created from the seed parameter on
+    every path through __init__.  Draws from the module-level generator of `random` are shared by all samplers of the process:
+    constructing a second sampler re-seeds the first one's stream."""
     obs = []
     oid = "DET.sampler"
     m = repo.module("sample")
     n_draws = 0
+    OWN = ("attr", SELF, "random")
+    DRAWS = ("choice", "choices", "random", "randint", "randrange", "shuffle", "sample", "uniform", "gauss", "betavariate", "triangular")
     for fi in m.functions.values():
         for call, nid in fi.flow.calls():
+            ct = fi.flow.canon(call, nid)
+            f = ct[2]
             t = repo.resolve_call(fi, call)
-            if t.kind == "ext" and (t.name.startswith("random.") or t.name.startswith(BAD_RANDOM_PREFIX)):
-                if t.name in RANDOM_OK:
-                    n_draws += 1
-                    if t.name != "random.seed":
-                        # population must not be a set-typed value
-                        ct = fi.flow.canon(call, nid)
-                        pop = ct[3][0] if ct[3] else None
-                        if pop is not None and _set_typed(strip_wrappers(pop)):
-                            obs.append(ob_fail(oid, fi, call, construct=show(ct), instance="population",
-                                               reason="a random draw from a set: the result depends on the interpreter's hash seed"))
-                        else:
-                            obs.append(ob_ok(oid, fi, call, construct="%s(list-typed population)" % t.name, instance="draw:" + fi.qualname,
-                                             reason="draws use the seeded module-level generator on ordered populations"))
-                else:
-                    obs.append(ob_fail(oid, fi, call, construct=t.name, instance="source",
-                                       reason="a random source other than the seeded random.choice/choices is used"))
-    need(n_draws >= 3, "anchor vanished: fewer than 3 random.* calls in sample.py", None)
+            source = None
+            if t.kind == "ext" and (t.name.startswith("random.") or t.name.startswith(BAD_RANDOM_PREFIX)) and t.name != "random.Random":
+                source = "module"
+            elif f[0] == "attr" and f[2] in DRAWS and f[1] == OWN:
+                source = "own"
+            elif f[0] == "attr" and f[2] in DRAWS and f[1][0] == "param" and f[1][1] == "rng":
+                # a helper that is handed the generator: every call of it in sample.py must hand over the sampler's own
+                sites = [(f2, c2, n2) for f2 in m.functions.values() for c2, n2, _ in f2.flow.calls_to(fi.fq)]
+                pos = list(fi.positional_params).index("rng") if "rng" in fi.positional_params else None
+                handed = []
+                for f2, c2, n2 in sites:
+                    ct2 = f2.flow.canon(c2, n2)
+                    h = dict(ct2[4]).get("rng")
+                    if h is None and pos is not None and len(ct2[3]) > pos:
+                        h = ct2[3][pos]
+                    handed.append(h)
+                source = "own" if sites and all(h == OWN for h in handed) else "default"
+            if source is None:
+                continue
+            n_draws += 1
+            if source == "module":
+                obs.append(ob_fail(oid, fi, call, construct=t.name, instance="source",
+                                   reason="a draw from the process-wide generator (or another source): a second sampler constructed in between re-seeds it, "
+                                          "so `sampler(seed).sample()` is not a function of the seed"))
+                continue
+            if source == "default":
+                obs.append(ob_fail(oid, fi, call, construct="rng." + f[2], instance="source",
+                                   reason="the helper is not handed the sampler's own generator at every call: it falls back to the process-wide one"))
+                continue
+            pop = ct[3][0] if ct[3] else None
+            if pop is not None and _set_typed(strip_wrappers(pop)):
+                obs.append(ob_fail(oid, fi, call, construct=show(ct), instance="population",
+                                   reason="a random draw from a set: the result depends on the interpreter's hash seed"))
+            else:
+                obs.append(ob_ok(oid, fi, call, construct="%s(list-typed population) on the sampler's generator" % f[2], instance="draw:" + fi.qualname,
+                                 reason="draws use the sampler's own seeded generator on ordered populations"))
+    need(n_draws >= 3, "anchor vanished: fewer than 3 random draws in sample.py", None)
     from .prov import _set_typed as _st
     # ... in sample.py and in the helpers the growth step calls (complement lookup, open-descriptor index)
     for fi in list(m.functions.values()) + list(repo.module("cgsmiles_utils").functions.values()):
@@ -505,24 +539,29 @@ def det_sampler(repo, tier="quick"):
                     obs.append(ob_fail(oid, fi, where, construct="iteration over %s" % show(t), instance="set-order:" + fi.qualname,
                                        reason="a set is iterated in an order-sensitive position: tables that feed the random draws depend on the interpreter's hash seed, "
                                               "so one sampler seed gives different molecules in different processes"))
-    # seeding in __init__
+    # the generator is made from the seed in __init__
     fi = m.function("MoleculeSampler.__init__")
     fl, cfg = fi.flow, fi.cfg
-    seeds = fl.calls_to("random.seed")
-    if not seeds:
-        obs.append(ob_fail(oid, fi, construct="random.seed(seed)", instance="seed", reason="the generator is never seeded from the seed parameter"))
+    makes = []
+    for n in cfg.nodes:
+        if n.kind == "stmt" and isinstance(n.ast, ast.Assign) and len(n.ast.targets) == 1 and ast.unparse(n.ast.targets[0]) == "self.random":
+            makes.append(n)
+    if not makes:
+        obs.append(ob_fail(oid, fi, construct="self.random = random.Random(seed)", instance="seed", reason="the sampler has no generator of its own made from the seed parameter"))
         return obs
-    snodes = {nid for _, nid, _ in seeds}
+    snodes = {n.id for n in makes}
     ok_path = on_every_path(fi, snodes)
-    (obs.append(ob_ok(oid, fi, seeds[0][0], construct="random.seed on every path through __init__", instance="seed:every-path",
-                      reason="constructing a sampler always (re)seeds")) if ok_path else
-     obs.append(ob_fail(oid, fi, seeds[0][0], construct="random.seed not on every path", instance="seed:every-path",
-                        reason="a path through __init__ leaves the generator unseeded (for example seed=0 treated as false)")))
-    for call, nid, _ in seeds:
-        ct = fl.canon(call, nid)
-        a = ct[3][0] if ct[3] else dict(ct[4]).get("a")
+    (obs.append(ob_ok(oid, fi, makes[0].ast, construct="self.random = random.Random(seed) on every path through __init__", instance="seed:every-path",
+                      reason="constructing a sampler always gives it a freshly seeded generator")) if ok_path else
+     obs.append(ob_fail(oid, fi, makes[0].ast, construct="generator not created on every path", instance="seed:every-path",
+                        reason="a path through __init__ leaves the sampler without a seeded generator (for example seed=0 treated as false)")))
+    for n in makes:
+        ct = fl.canon(n.ast.value, n.id)
+        nid, call = n.id, n.ast.value
+        is_gen = ct[0] == "call" and ct[2] == ("ext", "random.Random")
+        a = (ct[3][0] if ct[3] else dict(ct[4]).get("x")) if is_gen else None
         ok = False
-        why = "the seed value is %s" % (show(a) if a else "<none>")
+        why = "the generator is %s" % show(ct)[:80] if not is_gen else "the seed value is %s" % (show(a) if a else "<none>")
         if a == ("param", "seed"):
             ok = True
         elif a and a[0] == "var" and a[1] == "seed":
@@ -539,28 +578,9 @@ def det_sampler(repo, tier="quick"):
                     why = "the seed parameter is overwritten when it is not None (line %d)" % cfg.nodes[d.node].lineno
                 else:
                     ok = False
-        (obs.append(ob_ok(oid, fi, call, construct="random.seed(a=seed)", instance="seed:value",
+        (obs.append(ob_ok(oid, fi, call, construct="random.Random(seed)", instance="seed:value",
                           reason="the generator is seeded with the seed parameter; a time-derived value only under `seed is None`")) if ok else
-         obs.append(ob_fail(oid, fi, call, construct="random.seed(%s)" % (show(a) if a else ""), instance="seed:value", reason=why)))
-    # no draw before the seed in __init__ (including callees)
-    draws_before = []
-    for call, nid in fl.calls():
-        t = repo.resolve_call(fi, call)
-        names = set()
-        if t.kind == "ext" and t.name in RANDOM_OK - {"random.seed"}:
-            names.add(t.name)
-        if t.kind == "repo":
-            for fq in repo.reachable([t.fi.fq]):
-                f2 = repo.function(fq)
-                for c2, _ in f2.flow.calls():
-                    t2 = repo.resolve_call(f2, c2)
-                    if t2.kind == "ext" and t2.name.startswith("random.") and t2.name != "random.seed":
-                        names.add(t2.name)
-        if names and not cfg.must_pass(cfg.entry, {nid}, snodes):
-            draws_before.append((call, names))
-    (obs.append(ob_fail(oid, fi, draws_before[0][0], construct="draw before random.seed", instance="seed:first",
-                        reason="a random draw can happen before the generator is seeded")) if draws_before else
-     obs.append(ob_ok(oid, fi, construct="no draw before random.seed", instance="seed:first", reason="seeding precedes every draw")))
+         obs.append(ob_fail(oid, fi, call, construct="self.random = %s" % show(ct)[:80], instance="seed:value", reason=why)))
     return obs
 
 
@@ -656,7 +676,7 @@ def prov_sampler_setup(repo, tier="quick"):
                 named_ok = bool(pols) and all(pols)
             elif t[0] == "sub" and t[1] == fd:
                 k = t[2]
-                c = is_call(k, "random.choice")
+                c = is_call(k, "random.choice", "choice")
                 inner = strip_wrappers(c[0][0]) if c and c[0] else None
                 mk = method_call(inner, "keys") if inner else None
                 random_ok = bool(inner == fd or (mk and mk[0] == fd))
